@@ -41,6 +41,19 @@ case "${1:-}" in
     build
     exec ./bin/vcheck replay "$2"
     ;;
+  C07)
+    # the allocation bound must hold in every build mode: after the regular run the same spaces run once more on a checker
+    # built with inlining disabled (escape analysis changes; evidence of this second pass goes to .work/, not to evidence/)
+    build
+    tier="${2:-${VERIF_TIER:-quick}}"
+    ./bin/vcheck run C07 "$tier"; rc=$?
+    [ $rc -ne 0 ] && exit $rc
+    go build -tags verif -gcflags=all=-l -o bin/vcheck-noinline ./cmd/vcheck || { echo "BUILD FAILED (no-inline)" >&2; exit 2; }
+    mkdir -p .work/c07-noinline
+    cp "${VERIF_ROOT:-$HERE}/known_findings.json" .work/c07-noinline/ 2>/dev/null
+    VERIF_ROOT="$HERE/.work/c07-noinline" ./bin/vcheck-noinline run C07 quick | sed 's/^C07 quick:/C07 (checker and library built with -gcflags=all=-l) quick:/'
+    exit ${PIPESTATUS[0]}
+    ;;
   C17)
     build
     build_c17
